@@ -656,7 +656,7 @@ Proof.
     + (* a body is written *)
       match goal with |- J _ (add_log (set_call _ _ ?k') ?evs) => jW HI HS HJ E k' evs end.
       * apply wr_one_id; auto.
-      * apply orb_false_iff in E4. destruct E4 as [E4 _].
+      * apply orb_false_iff in E4. destruct E4 as [E4 _]. apply orb_false_iff in E4. destruct E4 as [_ E4].
         unfold callJ. fsimpl. rewrite ?Hop. split; [simpl; lia|split; [auto|split; [auto|split]]].
         -- intros Ha Hok. destruct (D Ha (api_ok_prefix _ _ Hok)) as (nC & nR & S & A1 & B1 & C1 & D1).
            assert (nC = 0%nat) by (eapply B1; eauto). subst nC.
